@@ -51,7 +51,10 @@ CovSymmetric(f) == f.finite /\ f.asym <= AsymBound(f)
 (*   over / under: excess above ub / below lb in float32 ulps of the largest     *)
 (*   magnitude involved, rounded up; tol: roundings between exact and computed   *)
 (*   value (0 on dyadic lattices)                                                *)
+(*   (one-sided / wide boxes: ulps of max(|face|, distance of the mean to that    *)
+(*   face), an infinite face cannot be exceeded); nan (optional): a value is NaN  *)
 WithinBox(f) == f.over <= f.tol /\ f.under <= f.tol
+NoNaN(f) == ("nan" \in DOMAIN f) => ~f.nan
 
 Failed(f) ==
   CASE f.kind = "weights" ->
@@ -63,7 +66,7 @@ Failed(f) ==
          (IF StepSizeBounded(f) THEN {} ELSE {"StepSizeBounded"})
          \cup (IF VariancesPositive(f) THEN {} ELSE {"VariancesPositive"})
          \cup (IF VariancesPositive(f) => CovSymmetric(f) THEN {} ELSE {"CovSymmetric"})
-    [] f.kind = "box" -> (IF WithinBox(f) THEN {} ELSE {"WithinBox"})
+    [] f.kind = "box" -> (IF WithinBox(f) THEN {} ELSE {"WithinBox"}) \cup (IF NoNaN(f) THEN {} ELSE {"NoNaN"})
     [] OTHER -> {"UnknownKind"}
 
 VARIABLE i
